@@ -39,6 +39,33 @@ int main_replay(){
   return 0;
 }
 '''
+REPLAY_FRAME = r'''
+/* On the real optimizer: after 10 iterations each state edit must leave the other parts of the state untouched:
+ * clearCache() keeps positions, velocities and best-known points; clearBestParticles() and the setters keep what they do not set. */
+int main_replay(){
+  using namespace TasOptimization;
+  int bad = 0;
+  for (int edit = 0; edit < 4; edit++) {
+    auto f = [&](const std::vector<double> &x, std::vector<double> &v){ for (size_t i = 0; i < v.size(); i++) v[i] = (x[2*i] - 0.3) * (x[2*i] - 0.3) + (x[2*i+1] + 0.2) * (x[2*i+1] + 0.2); };
+    auto inside = [](const std::vector<double> &x)->bool{ return x[0] >= -1.0 && x[0] <= 1.0 && x[1] >= -1.0 && x[1] <= 1.0; };
+    int seed = 11; auto rng = [&]()->double{ seed = (seed * 1103515245 + 12345) & 0x7fffffff; return double(seed) / double(0x7fffffff); };
+    ParticleSwarmState state(2, 4);
+    state.initializeParticlesInsideBox(std::vector<double>{-1.0, -1.0}, std::vector<double>{1.0, 1.0}, rng);
+    ParticleSwarm(f, inside, 0.5, 2.0, 2.0, 10, state, rng);
+    std::vector<double> p = state.getParticlePositions(), v = state.getParticleVelocities(), b = state.getBestParticlePositions();
+    const char *what = "";
+    if (edit == 0) { state.clearCache(); what = "clearCache()"; }
+    if (edit == 1) { state.clearBestParticles(); what = "clearBestParticles()"; }
+    if (edit == 2) { state.setParticlePositions(std::vector<double>(8, 0.25)); what = "setParticlePositions()"; }
+    if (edit == 3) { state.setBestParticlePositions(std::vector<double>(10, 0.25)); what = "setBestParticlePositions()"; }
+    if (state.getParticleVelocities() != v) { std::printf("%s changed the velocities\n", what); bad++; }
+    if (edit != 2 && state.getParticlePositions() != p) { std::printf("%s changed the particle positions\n", what); bad++; }
+    if (edit != 1 && edit != 3 && state.getBestParticlePositions() != b) { std::printf("%s changed the best-known points (swarm best was (%g, %g), is (%g, %g))\n", what, b[8], b[9], state.getBestParticlePositions()[8], state.getBestParticlePositions()[9]); bad++; }
+  }
+  __CPROVER_assert(bad == 0, "F20b every state edit leaves the other parts of the state untouched");
+  return 0;
+}
+'''
 REPLAY_STALEPOS = r'''
 /* On the real optimizer: two particles at {1, 2} are evaluated (0 iterations), the best-known points are cleared, the particles are moved to {3, 4}
  * through each of the position setters / the box initialiser, and the optimizer is called again with 0 iterations.  Every best-known point must be
@@ -71,6 +98,9 @@ int main_replay(){
 '''
 def replay_setters(prop):
     def rp(job, ob, vals, wd):
+        if "survive every edit" in ob["description"] or "only setParticlePositions changes" in ob["description"] or "touches the velocities" in ob["description"]:
+            hdr = "Replay against the real optimizer.\nproperty %s job %s\nobligation %s: %s\nat %s" % (prop, job.name, ob["name"], ob["description"], ob["location"])
+            return RP.write_and_run(prop, job.name + "." + ob["name"], hdr, ['"TasmanianOptimization.hpp"'], REPLAY_FRAME, "  main_replay();", lib="dream")
         if "keeps the position that value belongs to" in ob["description"]:
             hdr = "Replay against the real optimizer.\nproperty %s job %s\nobligation %s: %s\nat %s" % (prop, job.name, ob["name"], ob["description"], ob["location"])
             return RP.write_and_run(prop, job.name + "." + ob["name"], hdr, ['"TasmanianOptimization.hpp"'], REPLAY_STALEPOS, "  main_replay();", lib="dream")
